@@ -7,6 +7,8 @@ use vlib::spec::*;
 use vlib::util::*;
 
 const GRID9: [f32; 9] = [0.0, 0.125, 0.25, 0.375, 0.5, 0.625, 0.75, 0.875, 1.0];
+/// Positions closer together than one percent (and than one f32 step of common quantisations).
+const DENSE9: [f32; 9] = [0.0, 0.125, 0.126, 0.129, 0.131, 0.5, 0.501, 0.999, 1.0];
 
 #[derive(Default)]
 struct Acc {
@@ -68,11 +70,15 @@ pub fn run(run: Run) -> ! {
     let init = P::sentinel();
     let vs = vstar();
     // work items: (position subset, pattern)
+    // work items: (position subset, pattern); pattern >= 100 selects the dense grid
     let mut items: Vec<(Vec<usize>, usize)> = vec![];
     for n in 1..=nmax {
         for s in subsets(9, n) {
             for pat in 0..npat {
                 items.push((s.clone(), pat));
+            }
+            for pat in 0..(npat / 2).max(2) {
+                items.push((s.clone(), 100 + pat));
             }
         }
     }
@@ -82,7 +88,8 @@ pub fn run(run: Run) -> ! {
         Acc::default,
         |i, acc| {
             let (sub, pat) = &items[i];
-            let positions: Vec<f32> = sub.iter().map(|&j| GRID9[j]).collect();
+            let grid: &[f32; 9] = if *pat >= 100 { &DENSE9 } else { &GRID9 };
+            let positions: Vec<f32> = sub.iter().map(|&j| grid[j]).collect();
             let n = positions.len();
             let asc = decorate(&positions, *pat);
             let ti = i % thetas.len();
@@ -154,7 +161,7 @@ pub fn run(run: Run) -> ! {
     cov.insert("traces_validated_against_impl".into(), json!(acc.evals));
     cov.insert("evaluations".into(), json!(acc.evals));
     cov.insert("distinct_nontrivial".into(), json!(acc.perms_differing_order));
-    cov.insert("rule".into(), json!(format!("every subset of 1..={nmax} distinct positions from {{0,1/8,..,1}} x {npat} content patterns (property subsets, per-keyframe easings) x ALL permutations of the insertion order (timing configuration cycled over the 6 of Theta) x {{plain, start_with}} x time grid; oracle: values bit-identical and metadata identical to the ascending-order build; non-trivial = non-identity permutations checked")));
+    cov.insert("rule".into(), json!(format!("every subset of 1..={nmax} distinct positions from {{0,1/8,..,1}} and from a dense grid {{0,.125,.126,.129,.131,.5,.501,.999,1}} (positions closer than 1%) x {npat} (+{}) content patterns (property subsets, per-keyframe easings) x ALL permutations of the insertion order (timing configuration cycled over the 6 of Theta) x {{plain, start_with}} x time grid; oracle: values bit-identical and metadata identical to the ascending-order build; non-trivial = non-identity permutations checked", (npat / 2).max(2))));
     cov.insert("exhaustive".into(), json!(true));
     cov.insert("distinct_observed_outcomes_capped".into(), json!(acc.outcomes.len()));
     cov.insert("samples".into(), json!(acc.samples));
